@@ -356,7 +356,13 @@ def main(argv):
 
 
 def _main_replay(mod, pid, path):
-    data, out, hits = run_replay(mod, path)
+    # a replay written by a campaign is looked at the way the campaign looked at it: with the recorded findings'
+    # exclusions active.  The replay of a recorded finding itself (findings/...) runs with all of them off.
+    active = ()
+    own = os.path.abspath(path).startswith(os.path.join(ROOT, "findings") + os.sep)
+    if not own and not os.environ.get("VERIF_IGNORE_KNOWN"):
+        active = sorted({e["predicate"] for e in load_known(pid) if e.get("status") == "known" and e.get("predicate")})
+    data, out, hits = run_replay(mod, path, active)
     if hits:
         for v in hits:
             print("replay fails: %s :: %s" % (v["sig"], v["detail"][:500]))
